@@ -139,6 +139,12 @@ def make_plan(seed: int, tier: str, index: int) -> dict[str, Any]:
         ops = []
         for _ in range(p.randint(3, 7) if n_clients == 1 else p.randint(2, 4)):
             op = {"file": p.choice(["F", "D", "D"]), "select": _gen_selection(p, headers, vname)}
+            x = p.random()
+            if x < 0.25:
+                op["via"] = "path"
+            elif x < 0.35:
+                op["via"] = "simtext"
+                op["chunk"] = p.choice([1, 7, 13, 50, 257])
             if op["select"] is not None and f.random() < 0.12:
                 # the caller's selection object fails on its k-th access of any kind with an
                 # ordinary exception: the parse may fail, it must not return anything but the
@@ -172,6 +178,30 @@ def _solo_outcome(text: str, victim: str) -> dict[str, Any]:
             if gen.PAIR_TO_HEADER[(inst.name, diff.name)] == victim:
                 return {"kind": "ok", "track": rng.digest(observe_track(tr))}
     return {"kind": "ok", "track": None}
+
+
+def _parse_via(fs: Any, plan: dict[str, Any], op: dict[str, Any], sel_rt: Any) -> Any:
+    """The stored file is read from memory (default), by path - ONE path per file, opened again
+    and again with different selections - or through a short-reading reader."""
+    from chartparse.chart import Chart
+    from detsim import simfs as _simfs
+    from detsim import world
+
+    via = op.get("via")
+    text = plan[op["file"]]
+    if via == "path":
+        import pathlib
+
+        p = fs.put("chart-" + op["file"] + ".chart", text.encode("utf-8"))
+        if sel_rt is None:
+            return Chart.from_filepath(pathlib.Path(p))
+        return world.with_selection(sel_rt, lambda w: Chart.from_filepath(pathlib.Path(p), want_tracks=w))
+    if via == "simtext":
+        fp = _simfs.SimText(text, chunk=int(op.get("chunk") or 7))
+        if sel_rt is None:
+            return Chart.from_file(fp)
+        return world.with_selection(sel_rt, lambda w: Chart.from_file(fp, want_tracks=w))
+    return world.parse_text(text, sel_rt)
 
 
 def _reference_digests(text: str, solo_text: str | None = None, victim: str = "") -> dict[str, Any]:
@@ -242,6 +272,12 @@ def execute(plan: dict[str, Any]) -> dict[str, Any]:
                            "detail": f"unrestricted parse has {sorted(ref_track_dig)}, file has {sorted(headers)}"})
     world.drain_log()
     n_clients = len(plan["clients"])
+    import os as _os
+
+    from detsim import simfs as _simfs
+
+    fs = _simfs.SimFS(_os.path.join(env.scratch(), "simfs", f"run-{_os.getpid()}"))
+    fs.install()
     sched = Scheduler(plan["schedule"], n_clients, env.PKG_DIR,
                       preempt_lines=not env.package_uses_locks_or_threads())
     nontrivial = []
@@ -362,7 +398,7 @@ def execute(plan: dict[str, Any]) -> dict[str, Any]:
                         "injected: the caller's selection object failed")
                     sel_rt = {**sel_rt, "fault": {"at": sf["at"], "exc_obj": exc_obj}}
                 try:
-                    chart = world.parse_text(plan[op["file"]], sel_rt)
+                    chart = _parse_via(fs, plan, op, sel_rt)
                 except HarnessError:
                     raise
                 except Exception as e:  # noqa: BLE001
@@ -399,6 +435,11 @@ def execute(plan: dict[str, Any]) -> dict[str, Any]:
         sched.run([body_for(i) for i in range(n_clients)])
     except HarnessError as e:
         harness_error = str(e)
+    finally:
+        fs.uninstall()
+        import shutil as _shutil
+
+        _shutil.rmtree(fs.root, ignore_errors=True)
     if harness_error is None:
         # local unrestricted parse, made AFTER the simulation, only for the library's own ==; it is
         # used only if it is observably the pristine reference (otherwise this process's history
